@@ -94,3 +94,54 @@ def lemma_onset_shift(a: Arr(Real, None), b: Arr(Real, None), a2: Arr(Real, None
     F1, P1, R1 = onset_f_measure(a, b, w)
     F2, P2, R2 = onset_f_measure(a2, b2, w)
     ensures(P1 == P2, R1 == R2, F1 == F2, label='shift')
+
+
+# ----------------------------------------------------------------------------- beat.f_measure (same matching scheme as onsets)
+@contract("mir_eval.beat.validate", props="C14")
+def beat_validate(reference_beats: Arr(Real, None), estimated_beats: Arr(Real, None)):
+    raises(ValueError, when=not (valid_events(reference_beats, MAX_TIME) and valid_events(estimated_beats, MAX_TIME)), props="C14")
+
+
+@contract("mir_eval.beat.f_measure", props="C01 C02 C04 C06 C07 C08 C14")
+def beat_f_measure(reference_beats: Arr(Real, None), estimated_beats: Arr(Real, None), f_measure_threshold: Real = 0.07) -> Real:
+    requires(f_measure_threshold >= 0)
+    raises(ValueError, when=not (valid_events(reference_beats, MAX_TIME) and valid_events(estimated_beats, MAX_TIME)), props="C14")
+    n = length(reference_beats)
+    m = length(estimated_beats)
+    M = mm_events(reference_beats, estimated_beats, f_measure_threshold)
+    ensures(implies(n == 0 or m == 0, result == 0), label='empty', props="C04 C01")
+    ensures(implies(n > 0 and m > 0, result == F_beta(M / m, M / n, 1.0)), label='F-def', props="C04")
+    ensures(0 <= result, result <= 1, label='range', props="C01")
+
+
+@lemma("C02")
+def lemma_beat_perfect(a: Arr(Real, None), w: Real):
+    requires(valid_events(a, MAX_TIME), w >= 0, length(a) > 0)
+    mm_diagonal(length(a), length(a), hit(a, a, w))
+    ensures(beat_f_measure(a, a, w) == 1, label='perfect')
+
+
+@lemma("C06")
+def lemma_beat_swap(a: Arr(Real, None), b: Arr(Real, None), w: Real):
+    requires(valid_events(a, MAX_TIME), valid_events(b, MAX_TIME), w >= 0)
+    mm_transpose(length(a), length(b), hit(a, b, w), hit(b, a, w))
+    ensures(beat_f_measure(a, b, w) == beat_f_measure(b, a, w), label='swap')
+
+
+@lemma("C07")
+def lemma_beat_window_monotone(a: Arr(Real, None), b: Arr(Real, None), w1: Real, w2: Real):
+    requires(valid_events(a, MAX_TIME), valid_events(b, MAX_TIME), 0 <= w1, w1 <= w2)
+    mm_monotone(length(a), length(b), hit(a, b, w1), hit(a, b, w2))
+    mm_bounds(length(a), length(b), hit(a, b, w1))
+    mm_bounds(length(a), length(b), hit(a, b, w2))
+    ensures(beat_f_measure(a, b, w1) <= beat_f_measure(a, b, w2), label='F-monotone')
+
+
+@lemma("C08")
+def lemma_beat_shift(a: Arr(Real, None), b: Arr(Real, None), a2: Arr(Real, None), b2: Arr(Real, None), d: Real, w: Real):
+    requires(valid_events(a, MAX_TIME), valid_events(b, MAX_TIME), valid_events(a2, MAX_TIME), valid_events(b2, MAX_TIME), w >= 0)
+    requires(length(a2) == length(a), length(b2) == length(b))
+    requires(forall(0, length(a), lambda i: a2[i] == a[i] + d), forall(0, length(b), lambda j: b2[j] == b[j] + d))
+    mm_monotone(length(a), length(b), hit(a, b, w), hit(a2, b2, w))
+    mm_monotone(length(a), length(b), hit(a2, b2, w), hit(a, b, w))
+    ensures(beat_f_measure(a, b, w) == beat_f_measure(a2, b2, w), label='shift')
